@@ -88,7 +88,12 @@ def _corrupt_lit(e):
     return False
 
 
-CORRUPTORS = {"Trace_Lit": _corrupt_lit, "Trace_Panic": _corrupt_panic, "Trace_Lang": _corrupt_lang, "Trace_Ctx": _corrupt_ctx, "Trace_Reg": _corrupt_reg,
+def _corrupt_contains(e):
+    e["obs"]["runs"][0]["res"] = not e["obs"]["runs"][0]["res"]
+    return True
+
+
+CORRUPTORS = {"Trace_Contains": _corrupt_contains, "Trace_Lit": _corrupt_lit, "Trace_Panic": _corrupt_panic, "Trace_Lang": _corrupt_lang, "Trace_Ctx": _corrupt_ctx, "Trace_Reg": _corrupt_reg,
               "Trace_Types": _corrupt_types, "Trace_Serde": _corrupt_serde}
 
 
@@ -134,7 +139,12 @@ def _vc_lit(v):
     return True
 
 
-VECTOR_CORRUPTORS = {"replay-lit": _vc_lit, "replay-panic": _vc_panic, "replay": _vc_lang, "replay-hist": _vc_hist, "replay-reg": _vc_reg, "replay-types": _vc_types}
+def _vc_contains(v):
+    v["exp"] = not v["exp"]
+    return True
+
+
+VECTOR_CORRUPTORS = {"replay-contains": _vc_contains, "replay-lit": _vc_lit, "replay-panic": _vc_panic, "replay": _vc_lang, "replay-hist": _vc_hist, "replay-reg": _vc_reg, "replay-types": _vc_types}
 
 SH = dict(quick=1, thorough=8)
 
@@ -237,6 +247,25 @@ CHECKS = {
         assumptions=[],
         stages=[
             lang("sets", "rich", 3000, 100000, ["--nctx", "8", "--depth", "1", "--setpct", "85", "--setmax", "40", "--listpct", "0", "--callpct", "5", "--nestpct", "5"], shards=SH),
+        ],
+    ),
+    "C10": dict(
+        level="model_checking",
+        rule="(a) every haystack <= 8 and pattern <= 4 bytes over {a,b}; (b) pad^a . variant(p) . pad^b for pattern lengths across the "
+             "empty / 1 / 2..16 / >16 specialisations, offsets around 16/32/64-byte block edges, variants exact / first, last, middle "
+             "byte changed / truncated / doubled. Every case is compiled for every SIMD anchor position 1..len-1 (hook) and twice with "
+             "the production random anchor, executed with AVX2 on and, in a second process with WIREFILTER_USE_AVX2=0, on the scalar "
+             "fallback; answers must equal Occurs(p, h). Random haystacks to 300 bytes / patterns to 40 bytes with planted and "
+             "near-miss occurrences are validated by Trace_Contains on both paths.",
+        exhaustive=True,
+        assumptions=["memory safety of the SIMD search is not observed, only answers"],
+        stages=[
+            mc("small-simd", "MC_C10.tla", "MC_C10_small.cfg", replay_cmd="replay-contains"),
+            mc("small-scalar", "MC_C10.tla", "MC_C10_small.cfg", replay_cmd="replay-contains", replay_env={"WIREFILTER_USE_AVX2": "0"}),
+            mc("struct-simd", "MC_C10.tla", dict(quick="MC_C10_struct_quick.cfg", thorough="MC_C10_struct_thorough.cfg"), replay_cmd="replay-contains"),
+            mc("struct-scalar", "MC_C10.tla", dict(quick="MC_C10_struct_quick.cfg", thorough="MC_C10_struct_thorough.cfg"), replay_cmd="replay-contains", replay_env={"WIREFILTER_USE_AVX2": "0"}),
+            trace("random-simd", "Trace_Contains", ["gen-contains"], 3000, 150000, shards=SH),
+            trace("random-scalar", "Trace_Contains", ["gen-contains"], 1500, 60000, shards=SH, gen_env={"WIREFILTER_USE_AVX2": "0"}, seed_off=5),
         ],
     ),
     "C12": dict(
